@@ -232,6 +232,8 @@ class TailPrior(Target):
 
 
 def make(name, **kw):
+    if name.startswith("gauss") and name[5:].isdigit() and int(name[5:]) not in (1, 2, 4):
+        return GaussBox(int(name[5:]), **kw)
     return {
         "gauss2": lambda: GaussBox(2, **kw),
         "gauss4": lambda: GaussBox(4, **kw),
